@@ -629,6 +629,82 @@ def r20_10(ctx, counts) -> RuleResult:
     return res
 
 
+def r20_11(ctx, counts) -> RuleResult:
+    """an xsi:type attribute types its element whether or not a declaration matched"""
+    from ..engine.cfg import CFG, node_writes
+    from ..engine.dataflow import branch_facts
+    model: Model = ctx.model
+    res = RuleResult(
+        'R20.11', 'XSI-TYPE-INDEPENDENT-OF-DECLARATION',
+        'An element with a valid xsi:type attribute has that type also when no element '
+        'declaration matched it (a lax wildcard, a document element that is not global): the '
+        'schema processor assesses it against the xsi:type alone. In apply_schema the lookup '
+        '`schema.get_type(<name taken from the xsi:type attribute>)` is therefore reached under '
+        'the presence test of the attribute and under no test of a variable that holds the '
+        'matched declaration or its type (a name assigned from get_element(), from a loop over '
+        'iter_elements(), or from getattr(<declaration>, "type", ..)).')
+    n = 0
+    for f in sorted(model.all_functions(), key=lambda q: q.key):
+        if f.name != 'apply_schema' or f.cls is None:
+            continue
+        if not any(isinstance(x, ast.Name) and x.id == 'XSI_TYPE' for x in ast.walk(f.node)):
+            continue
+        cfg = CFG(f.node)
+        facts = branch_facts(cfg)
+        decl: set[str] = set()
+        for _ in range(3):
+            for nd in cfg.nodes:
+                for t, v in node_writes(nd):
+                    if isinstance(v, (ast.For, ast.comprehension)):
+                        v = v.iter
+                    if v is None or not isinstance(t, str) or '.' in t or '[' in t:
+                        continue
+                    txt = stmt_text(v)
+                    calls = [dotted(c.func).split('.')[-1] for c in ast.walk(v)
+                             if isinstance(c, ast.Call)]
+                    if 'get_element' in calls or 'iter_elements' in calls or \
+                            ('getattr' in calls and any(isinstance(y, ast.Name) and y.id in decl
+                                                        for y in ast.walk(v))) or \
+                            (isinstance(v, ast.Name) and v.id in decl) or \
+                            any(txt == f'{d}.type' for d in decl):
+                        decl.add(t)
+        for nd in cfg.nodes:
+            if nd.ast is None or nd.kind != 'stmt':
+                continue
+            calls = [c for c in ast.walk(nd.ast) if isinstance(c, ast.Call)
+                     and dotted(c.func).split('.')[-1] == 'get_type' and c.args
+                     and not (isinstance(c.args[0], ast.Name) and c.args[0].id.isupper())]
+            fs = facts[nd.id]
+            if not calls or not any(fa.startswith('+') and 'XSI_TYPE in ' in fa for fa in fs):
+                continue
+            n += 1
+            bad = []
+            for fa in sorted(fs):
+                try:
+                    names = {y.id for y in ast.walk(ast.parse(fa[1:], mode='eval'))
+                             if isinstance(y, ast.Name)}
+                except SyntaxError:
+                    names = set()
+                if names & decl:
+                    bad.append(fa)
+            res.instances.append(f'{f.key}: L{nd.ast.lineno} `{stmt_text(nd.ast)[:50]}` under the '
+                                 f'xsi:type presence test; tests of the declaration '
+                                 f'({"/".join(sorted(decl))}) on the way: {bad or None}')
+            if not bad:
+                res.ok()
+            else:
+                res.fail(finding('R20.11', f, nd.ast, 'xsi:type lookup under a declaration test',
+                                 f'`{stmt_text(nd.ast)[:50]}` resolves the xsi:type only when '
+                                 f'{bad[0][1:]} is {"true" if bad[0][0] == "+" else "false"}: an '
+                                 f'element without a matching declaration (lax wildcard, '
+                                 f'non-global document element) keeps no type although its '
+                                 f'xsi:type is valid, and its typed value is xs:untypedAtomic'))
+    counts['xsi_type_lookups'] = n
+    if n < 1:
+        raise AnalysisError('apply_schema: the xsi:type lookup was not located')
+    return res
+
+
 def run(ctx) -> dict:
     model: Model = ctx.model
     counts: dict[str, int] = {}
@@ -726,7 +802,7 @@ def run(ctx) -> dict:
     return {
         'results': [r1, r2, r20_3(ctx, counts), r20_4(ctx, counts), r20_5(ctx, counts),
                     r20_6(ctx, counts), r20_7(ctx, counts), r20_8(ctx, counts),
-                    r20_9(ctx, counts), r20_10(ctx, counts),
+                    r20_9(ctx, counts), r20_10(ctx, counts), r20_11(ctx, counts),
                     _state], 'counts': counts,
         'explanation':
             'Only the table-shaped necessary condition of "the typed value is an instance of the '
